@@ -1,8 +1,134 @@
-From Coq Require Import ZArith QArith Qabs List Bool.
-From QE Require Import Base.Num C13.Model C13.Proofs.
+(* C13 property theorems: statements only, each closed by `exact`, with Print Assumptions.
+   rouwenhorst/linspace are the NumQ instance of the generic model (the NumF instance of the same
+   text is what the harness compares bit-exactly with NumPy). *)
+From Coq Require Import ZArith QArith Qabs List Bool Lqa.
+From QE Require Import Base.Num C16.Model C13.Model C13.Proofs.
 Import ListNotations.
 Open Scope Q_scope.
 
-Theorem C13_sumQ_cons : forall x l, sumQ (x :: l) == x + sumQ l.
-Proof. exact sumQ_cons. Qed.
-Print Assumptions C13_sumQ_cons.
+(* ---- rouwenhorst: a stochastic matrix for every n >= 2 and rho in [-1,1] (p = q = (1+rho)/2 in [0,1]) *)
+Theorem C13_rouwenhorst_stochastic : forall n rho psi mu P y,
+  -1 <= rho <= 1 -> rouwenhorst n rho psi mu = Some (P, y) ->
+  (2 <= n)%nat /\ length P = n /\ length y = n /\
+  forall i, (i < n)%nat ->
+    length (nth i P []) = n /\ Forall (fun x => 0 <= x) (nth i P []) /\ sum_list (nth i P []) == 1.
+Proof. exact rouwenhorst_stochastic. Qed.
+Print Assumptions C13_rouwenhorst_stochastic.
+
+(* the recursive construction itself, for any p, q in [0,1] and any size k+2 *)
+Theorem C13_rw_mat_stochastic : forall p q k, 0 <= p <= 1 -> 0 <= q <= 1 ->
+  length (rw_mat k p q) = S (S k) /\
+  forall i, (i < S (S k))%nat ->
+    length (nth i (rw_mat k p q) []) = S (S k) /\
+    Forall (fun x => 0 <= x) (nth i (rw_mat k p q) []) /\
+    sum_list (nth i (rw_mat k p q) []) == 1.
+Proof. exact rw_mat_stochastic. Qed.
+Print Assumptions C13_rw_mat_stochastic.
+
+(* conditional mean at every grid point = mu + rho * y_i (the AR(1) y' = mu + rho y + eps) *)
+Theorem C13_rouwenhorst_cond_mean : forall n rho psi mu P y,
+  (2 <= n)%nat -> -1 <= rho /\ rho < 1 -> rouwenhorst n rho psi mu = Some (P, y) ->
+  forall i, (i < n)%nat -> cmean (nth i P []) y == mu + rho * nth i y 0.
+Proof. exact rouwenhorst_cond_mean. Qed.
+Print Assumptions C13_rouwenhorst_cond_mean.
+
+(* conditional variance at every grid point = sigma^2, given psi^2 = (n-1) sigma^2/(1-rho^2) *)
+Theorem C13_rouwenhorst_cond_var : forall n rho psi mu P y,
+  (2 <= n)%nat -> -1 <= rho /\ rho < 1 -> rouwenhorst n rho psi mu = Some (P, y) ->
+  forall sigma i, -1 < rho ->
+  psi * psi == natQ (n - 1) * (sigma * sigma) / (1 - rho * rho) ->
+  (i < n)%nat -> cvar (nth i P []) y == sigma * sigma.
+Proof. exact rouwenhorst_cond_var. Qed.
+Print Assumptions C13_rouwenhorst_cond_var.
+
+(* the grid: evenly spaced from -psi to psi around mu/(1-rho) *)
+Theorem C13_rouwenhorst_grid : forall n rho psi mu P y,
+  (2 <= n)%nat -> -1 <= rho /\ rho < 1 -> rouwenhorst n rho psi mu = Some (P, y) ->
+  forall j, (j < n)%nat -> nth j y 0 == - psi + natQ j * ((psi - - psi) / natQ (n - 1)) + mu / (1 - rho).
+Proof. exact rw_grid_nth. Qed.
+Print Assumptions C13_rouwenhorst_grid.
+
+Example ex_rouwenhorst :
+  exists P y, rouwenhorst 5%nat (3 # 5) 2 (1 # 2) = Some (P, y) /\
+              2 * 2 == natQ (5 - 1) * ((4 # 5) * (4 # 5)) / (1 - (3 # 5) * (3 # 5)) /\
+              Qeq_bool (cmean (nth 1 P []) y) ((1 # 2) + (3 # 5) * nth 1 y 0) = true /\
+              Qeq_bool (cvar (nth 1 P []) y) ((4 # 5) * (4 # 5)) = true.
+Proof. eexists. eexists. split; [vm_compute; reflexivity|]. split; [reflexivity|]. split; vm_compute; reflexivity. Qed.
+
+(* ---- tauchen: for ANY monotone Phi with values in [0,1] *)
+Section TauchenAnyCdf.
+Variable Phi : Q -> Q.
+Hypothesis Phi_mono : forall x y, x <= y -> Phi x <= Phi y.
+Hypothesis Phi_range : forall x, 0 <= Phi x <= 1.
+
+Theorem C13_tauchen_rows : forall n rho sigma std_y n_std,
+  (2 <= n)%nat -> 0 < sigma -> 0 <= n_std * std_y ->
+  let P := tauchen_P Phi n rho sigma std_y n_std in
+  length P = n /\
+  forall i, (i < n)%nat ->
+    length (nth i P []) = n /\ Forall (fun v => 0 <= v <= 1) (nth i P []) /\ sum_list (nth i P []) == 1.
+Proof. exact (tauchen_rows Phi Phi_mono Phi_range). Qed.
+
+(* entry (i,j) is Phi at the upper edge minus Phi at the lower edge of cell j seen from rho*x_i; end cells open *)
+Theorem C13_tauchen_entry : forall n rho sigma std_y n_std i j,
+  (i < n)%nat -> (j < n)%nat ->
+  let x := fun k => getQ (tauchen_x n std_y n_std) k in
+  let half := (1 # 2) * ((n_std * std_y - - (n_std * std_y)) / natQ (n - 1)) in
+  nth j (nth i (tauchen_P Phi n rho sigma std_y n_std) []) 0 ==
+  (if (j =? n - 1)%nat then 1 else Phi ((x j - rho * x i + half) / sigma))
+  - (if (j =? 0)%nat then 0 else Phi ((x j - rho * x i - half) / sigma)).
+Proof. intros n rho sigma std_y n_std i j. exact (tauchen_entry Phi Phi_mono n rho sigma std_y n_std i j). Qed.
+End TauchenAnyCdf.
+Print Assumptions C13_tauchen_rows.
+Print Assumptions C13_tauchen_entry.
+
+Theorem C13_tauchen_grid : forall n rho std_y n_std mu j, (2 <= n)%nat -> (j < n)%nat -> rho < 1 ->
+  length (tauchen_states n rho std_y n_std mu) = n /\
+  nth j (tauchen_states n rho std_y n_std mu) 0 ==
+    mu / (1 - rho) - n_std * std_y + natQ j * (2 * (n_std * std_y) / natQ (n - 1)).
+Proof. exact tauchen_grid. Qed.
+Print Assumptions C13_tauchen_grid.
+
+(* the hypotheses on Phi are satisfiable: a clamped linear cdf *)
+Definition ex_Phi (x : Q) : Q := if Qle_bool x (-1) then 0 else if Qle_bool 1 x then 1 else (x + 1) / 2.
+Example ex_Phi_ok : (forall x y, x <= y -> ex_Phi x <= ex_Phi y) /\ (forall x, 0 <= ex_Phi x <= 1).
+Proof.
+  assert (B : forall a b, Qle_bool a b = false -> b < a).
+  { intros a b H. apply Qnot_le_lt. intro L. apply Qle_bool_iff in L. congruence. }
+  split.
+  - intros x y Hxy. unfold ex_Phi.
+    destruct (Qle_bool x (-1)) eqn:E1; [apply Qle_bool_iff in E1|apply B in E1];
+    destruct (Qle_bool y (-1)) eqn:E2; [apply Qle_bool_iff in E2|apply B in E2|apply Qle_bool_iff in E2|apply B in E2];
+    destruct (Qle_bool 1 x) eqn:E3; try (apply Qle_bool_iff in E3); try (apply B in E3);
+    destruct (Qle_bool 1 y) eqn:E4; try (apply Qle_bool_iff in E4); try (apply B in E4); lra.
+  - intro x. unfold ex_Phi.
+    destruct (Qle_bool x (-1)) eqn:E1; [lra|apply B in E1].
+    destruct (Qle_bool 1 x) eqn:E3; [lra|apply B in E3]. lra.
+Qed.
+Example ex_tauchen :
+  let P := tauchen_P ex_Phi 3%nat (3 # 5) (4 # 5) 1 3 in
+  Qeq_bool (sum_list (nth 1 P [])) 1 = true /\ Qeq_bool (nth 1 (nth 1 P []) 0) 1 = false.
+Proof. vm_compute. split; reflexivity. Qed.
+
+(* ---- estimate_mc *)
+Theorem C13_estimate_mc_spec : forall X,
+  let '(states, idx, P) := estimate_mc X in
+  let n := length states in
+  let tr := transitions idx in
+  length idx = length X /\
+  (forall t, (t < length X)%nat ->
+     (nth t idx 0 < n)%nat /\ lex_eqb (nth t X []) (nth (nth t idx 0%nat) states []) = true) /\
+  length P = n /\
+  forall i, (i < n)%nat ->
+    length (nth i P []) = n /\ Forall (fun v => 0 <= v) (nth i P []) /\
+    (forall j, (j < n)%nat -> nth j (nth i P []) 0 * natQ (departures tr i) == natQ (count_tr tr i j)) /\
+    ((0 < departures tr i)%nat -> sum_list (nth i P []) == 1).
+Proof. exact estimate_mc_spec. Qed.
+Print Assumptions C13_estimate_mc_spec.
+
+Example ex_estimate_mc :
+  let '(states, idx, P) := estimate_mc [[3]; [1]; [3]; [3]; [1]] in
+  states = [[1]; [3]] /\ idx = [1; 0; 1; 1; 0]%nat /\
+  departures (transitions idx) 0 = 1%nat /\ departures (transitions idx) 1 = 3%nat /\
+  P = [[0; 1]; [2 # 3; 1 # 3]].
+Proof. vm_compute. repeat split; reflexivity. Qed.
